@@ -96,6 +96,8 @@ func (c *Compiler) VerifDump(afterPasses bool) VerifFunc {
 		for _, id := range t.tgts {
 			if s, ok := start[id]; ok {
 				t.tok.T = append(t.tok.T, int64(s))
+			} else if id == b.ReturnBlock().ID() {
+				t.tok.T = append(t.tok.T, -1) // jump to the return block = return from the function
 			} else {
 				t.tok.T = append(t.tok.T, -2) // branch to a block that is not laid out
 			}
